@@ -482,6 +482,10 @@ def _project(t: Term) -> Optional[Term]:
     elif k == "call" and len(t) == 4 and t[1] in (("glob", "list"), ("glob", "tuple"), ("glob", "set"), ("glob", "frozenset")) and len(t[2]) == 1 and not t[3] \
             and is_term(t[2][0]) and t[2][0][0] == "bag" and len(t[2][0]) >= 2:
         return ("bag", t[2][0][1], t[1][1])          # a copy of a collection (as the walker reads it in place)
+    elif k == "call" and len(t) == 4 and t[1] in (("glob", "list"), ("glob", "tuple")) and len(t[2]) == 1 and not t[3] \
+            and is_term(t[2][0]) and t[2][0][0] == "call" and len(t[2][0]) == 4 and not t[2][0][2] and not t[2][0][3] \
+            and is_term(t[2][0][1]) and t[2][0][1][0] == "attr" and t[2][0][1][2] in ("values", "items", "keys"):
+        return t[2][0]                               # an order-preserving snapshot of a dict view: the view, for whoever only reads it
     elif k == "call" and len(t) == 4 and is_term(t[1]) and t[1][0] == "phi" and len(t[1]) == 4:
         # calling one of two functions: one of two calls
         a, b = ("call", t[1][2], t[2], t[3]), ("call", t[1][3], t[2], t[3])
